@@ -304,6 +304,8 @@ pub fn run_hpkt(run: &mut Run, live: &Live, pkt: &[u8], nt: bool) {
         l.rt.block_on(l.ice.verif_handle_packet(&p, l.sink, rustrtc::transports::ice::IceSocketWrapper::Udp(l.sock.clone())));
         l.observed()
     });
+    // the model stops at the first byte: the STUN branch (second decode, authentication, reply encoding) is bounded on this side only
+    super::alloc_side_check(run, "hpkt", "ice::handle_packet", &hex(pkt), pkt.len(), 64, 2048);
 }
 fn cpu_time() -> f64 {
     if let Ok(s) = std::fs::read_to_string("/proc/thread-self/stat") {
@@ -361,6 +363,7 @@ pub fn run_turnpkt(run: &mut Run, live: &Live, pkt: &[u8], nt: bool) {
         l.rt.block_on(l.ice.verif_handle_turn_packet(&p, &l.turn, l.peer));
         l.observed()
     });
+    super::alloc_side_check(run, "turnpkt", "IceTransport::handle_turn_packet", &format!("{} {}", known as u8, hex(pkt)), pkt.len(), 64, 4096);
 }
 
 /// one TURN/TCP message read over a real loopback connection: the server side writes `stream` and closes
